@@ -75,6 +75,15 @@ def source_gv(ctx):
     vlib.proof_phase_extra(ctx, 'Properties_gv_source')
 
 
+# properties that rest on the strides, on report.cells / concrete_cells and on how a method's report is accumulated:
+# translators/reportarith.py -> Gen/GenRep.v -> Properties_rep_source
+SOURCE_REP = ('C01', 'C17')
+
+
+def source_rep(ctx):
+    vlib.proof_phase_extra(ctx, 'Properties_rep_source')
+
+
 def main(pid, assumptions, level='proof', explanation=None):
     ctx = vlib.Ctx(pid)
     if ctx.replay:
@@ -93,6 +102,8 @@ def main(pid, assumptions, level='proof', explanation=None):
         source_tab(ctx)
     if pid in SOURCE_GV:
         source_gv(ctx)
+    if pid in SOURCE_REP:
+        source_rep(ctx)
     res = coresuite.dispatch_suite(ctx.tier, ctx.seed)
     cov = coresuite.summarize(ctx, res, pid)
     if pid == 'C03':
